@@ -289,3 +289,239 @@ func directedLockRun(arm func(*Sim)) func(*Tape, bool) *RunResult {
 		return &RunResult{Viol: s.viol, St: s.st, Scen: sc.Summary(), Trace: s.trace, SimCount: 1}
 	}
 }
+
+// ---------------------------------------------------------------------------------------
+// Two more directed prefixes, for states behind repaired defects whose return the random
+// search reaches only once in ten thousand runs.
+
+// directedEarlyCommitRun (anti-MEV, finding D12): a backup that holds the proposal but not yet
+// M preparations is given a Byzantine validator's garbage Commit, then M valid PreCommits (it
+// processes the PreBlock without having pre-committed itself), then the valid Commits of the
+// two honest validators; the seeded network takes over afterwards.
+func directedEarlyCommitRun(arm func(*Sim)) func(*Tape, bool) *RunResult {
+	return func(t *Tape, record bool) *RunResult {
+		sc := directedScenario(t, 3)
+		for i := range sc.Fault {
+			sc.Fault[i] = FHonest
+		}
+		sc.NIdent = 4
+		vals := []int{0, 1, 2, 3}
+		sc.Epochs = []Epoch{{From: 0, Vals: vals}}
+		sc.Fault = make([]FaultKind, 4)
+		sc.FlagWO = make([]bool, 4)
+		byz := int(t.Draw(SScen, 4))
+		sc.Fault[byz] = FByz
+		sc.AMEV = 0
+		s := NewSim(sc, t)
+		s.record = record
+		s.manual = true
+		arm(s)
+		s.installMapPerm()
+		defer func() { dbft.VerifMapPerm = nil }()
+		for _, n := range s.nodes {
+			n.boot()
+		}
+		if s.directedEarlyCommitPrefix(byz) {
+			s.note("directed_prefix_completed")
+		} else {
+			s.note("directed_prefix_abandoned")
+		}
+		s.manual = false
+		for i := range s.nodes {
+			s.after(sc.SyncEvery+int64(i), &Event{Kind: EvSyncPoll, Node: i})
+		}
+		if s.viol == nil {
+			s.loop()
+		}
+		return &RunResult{Viol: s.viol, St: s.st, Scen: sc.Summary(), Trace: s.trace, SimCount: 1}
+	}
+}
+
+func (s *Sim) directedEarlyCommitPrefix(byz int) bool {
+	sc := s.sc
+	h := sc.Start + 1
+	var prim *Node
+	var backups []*Node
+	for _, n := range s.nodes {
+		if n.d == nil {
+			return false
+		}
+		if n.d.IsPrimary() {
+			prim = n
+		} else {
+			backups = append(backups, n)
+		}
+	}
+	nv := len(sc.ValsAt(h))
+	bidx := sc.IndexAt(h, byz)
+	if primaryOf(h, 0, nv) == bidx || prim == nil || len(backups) != 2 {
+		return false // the Byzantine validator is the primary of view 0: nothing to direct
+	}
+	if s.sentAt(prim, dbft.PrepareRequestType, h, 0) == nil {
+		s.manualTimeout(prim)
+	}
+	req := s.sentAt(prim, dbft.PrepareRequestType, h, 0)
+	if req == nil {
+		return false
+	}
+	y, z := backups[0], backups[1]
+	if s.tape.Chance(SFault, 1, 2) {
+		y, z = z, y
+	}
+	// Y and Z get the proposal and answer; Z and the primary see M preparations and pre-commit,
+	// Y sees only the proposal and its own response
+	s.give(y, req)
+	s.give(z, req)
+	ry, rz := s.sentAt(y, dbft.PrepareResponseType, h, 0), s.sentAt(z, dbft.PrepareResponseType, h, 0)
+	if ry == nil || rz == nil {
+		return false
+	}
+	s.give(z, ry)
+	s.give(prim, ry)
+	s.give(prim, rz)
+	pz, pp := s.sentAt(z, dbft.PreCommitType, h, 0), s.sentAt(prim, dbft.PreCommitType, h, 0)
+	if pz == nil || pp == nil {
+		return false
+	}
+	// the Byzantine validator: a garbage Commit for Y now, a valid PreCommit for everybody
+	bk := s.kr.Priv(byz)
+	s.fault("adv:invalid_sig_commit")
+	s.give(y, s.forge(byz, dbft.CommitType, h, 0, &CommitBody{Sig: bk.Sign([]byte("garbage"))}))
+	hdr, ok := headerFor(y)
+	if !ok {
+		return false
+	}
+	ph := hdr.hash("preblock")
+	pb := s.forge(byz, dbft.PreCommitType, h, 0, &PreCommitBody{D: bk.Sign(ph[:])})
+	// Y collects M PreCommits before it has M preparations: PreBlock processed, no own PreCommit
+	s.give(y, pz)
+	s.give(y, pp)
+	s.give(y, pb)
+	// the others finish the pre-commit phase and commit
+	s.give(z, pp)
+	s.give(z, pb)
+	s.give(prim, pz)
+	s.give(prim, pb)
+	cz, cp := s.sentAt(z, dbft.CommitType, h, 0), s.sentAt(prim, dbft.CommitType, h, 0)
+	if cz == nil || cp == nil {
+		return false
+	}
+	s.give(y, cz)
+	s.give(y, cp)
+	return s.viol == nil
+}
+
+// directedChangeViewRun (finding D10): two honest validators reach view 1 and ask for view 2, a
+// Byzantine one asks for view 3; the fourth validator, still in view 0, is given the three
+// requests, the highest last - it completes the quorum for view 2.
+func directedChangeViewRun(arm func(*Sim)) func(*Tape, bool) *RunResult {
+	return func(t *Tape, record bool) *RunResult {
+		sc := directedScenario(t, 1)
+		sc.NIdent = 4
+		sc.Epochs = []Epoch{{From: 0, Vals: []int{0, 1, 2, 3}}}
+		sc.Fault = make([]FaultKind, 4)
+		sc.FlagWO = make([]bool, 4)
+		// the Byzantine validator is the primary of view 1, so that view 1 sees no proposal
+		byz := sc.Epochs[0].Vals[primaryOf(sc.Start+1, 1, 4)]
+		sc.Fault[byz] = FByz
+		s := NewSim(sc, t)
+		s.record = record
+		s.manual = true
+		arm(s)
+		s.installMapPerm()
+		defer func() { dbft.VerifMapPerm = nil }()
+		for _, n := range s.nodes {
+			n.boot()
+		}
+		if s.directedChangeViewPrefix(byz) {
+			s.note("directed_prefix_completed")
+		} else {
+			s.note("directed_prefix_abandoned")
+		}
+		s.manual = false
+		for i := range s.nodes {
+			s.after(sc.SyncEvery+int64(i), &Event{Kind: EvSyncPoll, Node: i})
+		}
+		if s.viol == nil {
+			s.loop()
+		}
+		return &RunResult{Viol: s.viol, St: s.st, Scen: sc.Summary(), Trace: s.trace, SimCount: 1}
+	}
+}
+
+func (s *Sim) directedChangeViewPrefix(byz int) bool {
+	sc := s.sc
+	h := sc.Start + 1
+	if len(s.nodes) != 3 {
+		return false
+	}
+	k := int(s.tape.Draw(SFault, 3))
+	l := s.nodes[k] // the laggard
+	var ab []*Node
+	for _, n := range s.nodes {
+		if n.d == nil {
+			return false
+		}
+		if n != l {
+			ab = append(ab, n)
+		}
+	}
+	a, b := ab[0], ab[1]
+	hear := func(v byte) { // the Byzantine validator makes itself heard in view v
+		rr := s.forge(byz, dbft.RecoveryRequestType, h, v, &RecReq{TS: 1})
+		s.give(a, rr)
+		s.give(b, rr)
+	}
+	round := func(v byte) { // both time out; recovery traffic goes round, change-view requests are held
+		for _, n := range ab {
+			if n.d.ViewNumber != v || s.sentAt(n, dbft.ChangeViewType, h, v) != nil {
+				continue
+			}
+			before := len(s.authentic)
+			s.manualTimeout(n)
+			for i := before; i < len(s.authentic); i++ {
+				p := s.authentic[i]
+				if p.T == dbft.RecoveryRequestType || p.T == dbft.RecoveryMessageType {
+					for _, m := range ab {
+						if m.id != p.sender {
+							s.give(m, p)
+						}
+					}
+				}
+			}
+		}
+	}
+	// view 0 -> 1
+	hear(0)
+	for i := 0; i < 3; i++ {
+		round(0)
+	}
+	cva0, cvb0 := s.sentAt(a, dbft.ChangeViewType, h, 0), s.sentAt(b, dbft.ChangeViewType, h, 0)
+	if cva0 == nil || cvb0 == nil {
+		return false
+	}
+	cvz0 := s.forge(byz, dbft.ChangeViewType, h, 0, &ChView{NewView: 1, Rsn: dbft.CVTimeout, TS: 1})
+	s.give(a, cvb0)
+	s.give(a, cvz0)
+	s.give(b, cva0)
+	s.give(b, cvz0)
+	if a.d.ViewNumber != 1 || b.d.ViewNumber != 1 || a.d.BlockIndex != h {
+		return false
+	}
+	// view 1: both ask for view 2 (held back)
+	hear(1)
+	for i := 0; i < 3; i++ {
+		round(1)
+	}
+	cva, cvb := s.sentAt(a, dbft.ChangeViewType, h, 1), s.sentAt(b, dbft.ChangeViewType, h, 1)
+	if cva == nil || cvb == nil {
+		return false
+	}
+	// the laggard, in view 0, hears the two requests for view 2 and then the Byzantine request
+	// for view 3, which completes the quorum for view 2
+	s.give(l, cva)
+	s.give(l, cvb)
+	s.fault("adv:ChangeView")
+	s.give(l, s.forge(byz, dbft.ChangeViewType, h, 2, &ChView{NewView: 3, Rsn: dbft.CVTimeout, TS: 1}))
+	return s.viol == nil
+}
